@@ -159,11 +159,27 @@ def _worker(job):
     return out
 
 
+def replay_jobs(ck, want):
+    """If the check was started with --replay <file>, the single job recorded in that file."""
+    import json
+
+    if not ck.replay_arg:
+        return None
+    r = json.load(open(ck.replay_arg))
+    rp = r.get("replay", r)
+    if not all(k in rp for k in ("seed", "index", "profile")):
+        raise common.InfraError("replay file does not name (seed, index, profile)")
+    return [(rp["seed"], rp["index"], rp["profile"], want)]
+
+
 def run_corpus(ck, n, profiles=None, want=("stream",), jobs=None, corpus_first=True):
     """Compile `n` generated networks (plus the corpus) and return the list of worker outputs."""
     import pipeline
 
     pipeline.load_vela()       # build the C extension once, before forking
+    rj = replay_jobs(ck, {k: True for k in want} if not isinstance(want, dict) else want)
+    if rj is not None:
+        return [_worker(rj[0])]
     profiles = profiles or PROFILES
     want = {k: True for k in want} if not isinstance(want, dict) else want
     jobs_list = []
